@@ -54,16 +54,21 @@ func RSAOddKeys() []*rsa.PrivateKey {
 //go:embed testdata/rsa_small_e.pem
 var rsaSmallEPEM []byte
 
+//go:embed testdata/rsa_short_modulus.pem
+var rsaShortModulusPEM []byte
+
 var (
 	smallEOnce sync.Once
 	smallE     []*rsa.PrivateKey
 )
 
-// RSASmallExponentKeys returns 2048-bit keys with public exponents 3, 17 and 257 (legal keys that key generation
-// in Go never produces; encoders with a fast path for "the usual" exponent meet them here).
+// RSASmallExponentKeys returns unusual but legal 256-byte RSA keys that key generation in Go never produces: 2048-bit
+// keys with public exponents 3, 17 and 257 (encoders with a fast path for "the usual" exponent meet them here)
 func RSASmallExponentKeys() []*rsa.PrivateKey {
 	smallEOnce.Do(func() {
-		rest := rsaSmallEPEM
+		// ... and keys whose modulus has 2047, 2044 and 2041 bits (e = 65537): it fills 256 bytes, but its bit length is no
+		// multiple of 8 (key generation in Go always sets the top bits; keys from elsewhere need not)
+		rest := append(append([]byte{}, rsaSmallEPEM...), rsaShortModulusPEM...)
 		for {
 			var blk *pem.Block
 			blk, rest = pem.Decode(rest)
